@@ -140,6 +140,32 @@ class OpaqueV:
         self.what = what
 
 
+PYSTR = z3.DeclareSort("PyStr")
+STRLEN = z3.Function("STRLEN", PYSTR, INT)
+ISDIGIT = z3.Function("ISDIGIT", PYSTR, BOOL)
+LOWER = z3.Function("LOWER", PYSTR, PYSTR)
+PARSEABLE = z3.Function("PARSEABLE_INT", PYSTR, BOOL)
+INTOF = z3.Function("INT_OF", PYSTR, INT)
+
+
+class PStr:
+    """an opaque Python string (generator code): equality, len, isdigit, lower, membership"""
+    __slots__ = ("t", "lit")
+
+    def __init__(self, t, lit=None):
+        self.t = t
+        self.lit = lit
+
+
+class DictV:
+    """an abstract str-keyed dict / set: membership and boolean values as uninterpreted functions"""
+    __slots__ = ("inn", "val")
+
+    def __init__(self, inn, val):
+        self.inn = inn
+        self.val = val
+
+
 class SuperV:
     def __init__(self, recv, cls):
         self.recv = recv
@@ -263,6 +289,7 @@ class Exec:
         self.site = 0
         self.frames = []
         self.entry_scope = {}
+        self._lits = {}
 
     # ------------------------------------------------------------ state helpers
     def fresh(self, base, sort=INT):
@@ -321,7 +348,7 @@ class Exec:
         # several paths may produce the same named obligation with different assumptions: keep all
         if key in self.obls:
             return
-        ob = Obligation(name, kind, list(self.pc), goal, info or {}, self.fname)
+        ob = Obligation(name, kind, list(self.pc) + self.lit_facts(), goal, info or {}, self.fname)
         self.obls[key] = ob
         self.order.append(ob)
 
@@ -348,6 +375,43 @@ class Exec:
                 t = z3.If(j == idx, vals[idx], t)
             return t
         return SeqV(kind, get, I(n), lit=values if all(isinstance(v, int) for v in values) else None)
+
+    def pstr_lit(self, text):
+        c = z3.Const("strlit:" + text, PYSTR)
+        known = getattr(self, "_lits", None)
+        if known is None:
+            known = self._lits = {}
+        if text not in known:
+            known[text] = c
+        return PStr(c, text)
+
+    def lit_facts(self):
+        """definitional facts about the string literals seen on this path"""
+        out = []
+        lits = getattr(self, "_lits", {})
+        items = sorted(lits.items())
+        if len(items) > 1:
+            out.append(z3.Distinct(*[c for _, c in items]))
+        for text, c in items:
+            out.append(STRLEN(c) == len(text))
+            out.append(ISDIGIT(c) == z3.BoolVal(text.isdigit()))
+            low = text.lower()
+            if low in lits:
+                out.append(LOWER(c) == lits[low])
+            try:
+                iv = int(text)
+                out.append(z3.And(PARSEABLE(c), INTOF(c) == iv))
+            except ValueError:
+                out.append(z3.Not(PARSEABLE(c)))
+        return out
+
+    def as_pstr(self, v):
+        if isinstance(v, PStr):
+            return v
+        sq = self.seq(v)
+        if sq is not None and isinstance(sq.lit, str):
+            return self.pstr_lit(sq.lit)
+        return None
 
     def seq(self, v):
         if isinstance(v, Ref):
@@ -435,6 +499,8 @@ class Exec:
 
     # ------------------------------------------------------------ truthiness / merge
     def truth(self, v):
+        if isinstance(v, PStr):
+            return STRLEN(v.t) != 0
         if is_bool(v):
             return v
         if is_int(v):
@@ -459,6 +525,8 @@ class Exec:
             return simp(z3.If(c, a, b)) if not a.eq(b) else a
         if a is NONE and b is NONE:
             return NONE
+        if isinstance(a, PStr) and isinstance(b, PStr):
+            return PStr(z3.If(c, a.t, b.t))
         if isinstance(a, Ref) and isinstance(b, Ref):
             if a.id == b.id:
                 return a
@@ -507,6 +575,10 @@ class Exec:
         return OpaqueV("fstring")     # message text of exceptions is not modelled
 
     def ev_List(self, node, fr):
+        if node.elts and all(isinstance(e, ast.Constant) and isinstance(e.value, str) for e in node.elts):
+            o = OpaqueV("strlist")
+            o.pystrs = [self.pstr_lit(e.value) for e in node.elts]
+            return o
         return self.alloc(self.lit_seq("list", [self.as_int(self.ev(e, fr)) for e in node.elts]))
 
     def ev_Tuple(self, node, fr):
@@ -625,6 +697,25 @@ class Exec:
                 r = z3.BoolVal(a.id == b.id)
                 return simp(z3.Not(r)) if isinstance(op, ast.IsNot) else r
             raise Unsupported("is on non-None")
+        if isinstance(op, (ast.Eq, ast.NotEq)) and (isinstance(a, PStr) or isinstance(b, PStr)):
+            pa, pb = self.as_pstr(a), self.as_pstr(b)
+            if pa is None or pb is None:
+                r = z3.BoolVal(False) if (a is NONE or b is NONE) else None
+                if r is None:
+                    raise Unsupported("string compared with a non-string")
+            elif pa.lit is not None and pb.lit is not None:
+                r = z3.BoolVal(pa.lit == pb.lit)
+            else:
+                r = pa.t == pb.t
+            return simp(z3.Not(r)) if isinstance(op, ast.NotEq) else simp(r)
+        if isinstance(op, (ast.In, ast.NotIn)) and isinstance(a, PStr):
+            if isinstance(b, DictV):
+                r = b.inn(a.t)
+                return simp(z3.Not(r)) if isinstance(op, ast.NotIn) else r
+            lst = getattr(b, "pystrs", None)
+            if lst is not None:
+                r = z3.Or(*[a.t == x.t for x in lst]) if lst else z3.BoolVal(False)
+                return simp(z3.Not(r)) if isinstance(op, ast.NotIn) else simp(r)
         if isinstance(op, (ast.Eq, ast.NotEq)):
             if (a is NONE) != (b is NONE):
                 r = z3.BoolVal(False)
@@ -699,6 +790,10 @@ class Exec:
         return self.getattr(base, node.attr, fr, node)
 
     def getattr(self, base, attr, fr, node=None):
+        if isinstance(base, PStr) and attr in ("isdigit", "lower", "strip"):
+            return BuiltinV("pystr." + attr, recv=base)
+        if isinstance(base, DictV) and attr in ("get",):
+            return BuiltinV("dict." + attr, recv=base)
         o = self.obj(base)
         if o is not None:
             if attr in o.fields:
@@ -924,6 +1019,12 @@ class Exec:
             # the external codec tables (extracted from CPython and checked at start-up)
             arg = self.as_int(list(env.values())[0])
             return self.reg.E(arg) if fi.name == "CP_E" else self.reg.D(arg)
+        if fi.name in ("PARSEABLE", "INT_OF"):
+            # int(str) of CPython is external: its graph is a pair of uninterpreted functions
+            a = self.as_pstr(list(env.values())[0])
+            if a is None:
+                raise Unsupported(fi.name + " of a non-string")
+            return PARSEABLE(a.t) if fi.name == "PARSEABLE" else INTOF(a.t)
         sub = Frame(fi, fi.module, env, spec=True)
         v = self.spec_block(fi.body(), sub)
         if v is None:
@@ -971,6 +1072,8 @@ class Exec:
     # ---- builtins
     def call_builtin(self, f, args, kwargs, fr, node):
         n = f.name
+        if n == "len" and isinstance(args[0], PStr):
+            return STRLEN(args[0].t)
         if n == "len":
             s = self.seq(args[0])
             if s is None:
@@ -1086,6 +1189,9 @@ class Exec:
         if n == "isinstance":
             o = self.obj(args[0])
             if o is not None and isinstance(args[1], ClsV):
+                kinds = self.reg.kinds_of(o.cls, args[1].ci)
+                if kinds is not None and "kind" in o.fields:
+                    return simp(z3.Or(*[o.fields["kind"] == k for k in kinds])) if kinds else z3.BoolVal(False)
                 return z3.BoolVal(o.cls.is_subclass_of(args[1].ci.qualname))
             raise Unsupported("isinstance")
         if n == "object.__init__":
@@ -1095,6 +1201,20 @@ class Exec:
             if sq is None:
                 raise Unsupported("ghost_copy of non-sequence")
             return self.alloc(SeqV(sq.kind, sq.get, sq.n, sq.lit))
+        if n == "pystr.isdigit":
+            return ISDIGIT(f.recv.t)
+        if n == "pystr.lower":
+            if f.recv.lit is not None:
+                return self.pstr_lit(f.recv.lit.lower())
+            return PStr(LOWER(f.recv.t))
+        if n == "dict.get":
+            k = self.as_pstr(args[0]) if args and args[0] is not NONE else None
+            dflt = args[1] if len(args) > 1 else NONE
+            if args and args[0] is NONE:
+                return dflt
+            if k is None or not is_bool(dflt):
+                raise Unsupported("dict.get outside the supported shape (str key, bool default)")
+            return simp(z3.If(f.recv.inn(k.t), f.recv.val(k.t), dflt))
         if n.startswith("seq."):
             return self.seq_method(n[4:], f.recv, args, kwargs, fr, node)
         ext = self.reg.external(n)
